@@ -174,7 +174,7 @@ def build_class(recorder, ctx, world, cls_params, has_extractor, opt_sets, class
 
     def body_common(alias, argtoken, call_args):
         st = ctx.cur
-        entry = {'alias': alias, 'arg': argtoken, 'thread': threading.current_thread().name}
+        entry = {'alias': alias, 'arg': argtoken, 'thread': threading.current_thread().name, 'inner': ctx.in_inner}
         ctx.body_log.append(entry)
         b = st.get('body', 'plain') if st is not None and st.get('kind') == 'in' and not ctx.in_inner else 'plain'
         if b == 'interrupt':
@@ -699,7 +699,7 @@ class Driver(object):
                         objs = jr.get('out_objects') or [None]
                         if jr['seen'][1] is not objs[-1]:
                             self._mm(out, 'seen', x, 'same object', 'different object (id)', 'identity of output result')
-                nb = len([b for b in jr['bodies'] if b['alias'] == st['alias']])
+                nb = len([b for b in jr['bodies'] if b['alias'] == st['alias'] and not b.get('inner')])
                 if nb != e['bodyRuns']:
                     self._mm(out, 'bodies', x, e['bodyRuns'], nb, 'wrapped body of %s executed %d times' % (st['alias'], nb))
             obs = jr.get('obs')
@@ -896,7 +896,7 @@ class Driver(object):
                              % (st['alias'], st.get('arg')))
                     if got[0] == 'err' and exp_seen[0] != 'err':
                         self._mm(out, 'pmissing', x, exp_seen, got, 'replay failed on a stored, complete recording')
-                nb = len([b for b in jr['bodies'] if b['alias'] == st['alias']])
+                nb = len([b for b in jr['bodies'] if b['alias'] == st['alias'] and not b.get('inner')])
                 if nb != e['bodyRuns']:
                     self._mm(out, 'pbodies', x, e['bodyRuns'], nb, 'wrapped body executed during replay')
             elif e['kind'] == 'pctl' and st['kind'] == 'playdata':
